@@ -357,6 +357,9 @@ def run_cbmc_split(g, binary, env):
     def one(names):
         g2 = dict(g)
         g2["extra"] = list(g["extra"]) + [x for n in names for x in ("--property", n)]
+        if names is rest and g["backend"] != "sat":
+            g2["backend"] = "sat"      # generated safety checks are linear: SAT decides them
+            g2["extra"] = g2["extra"] + ["--slice-formula"]
         return run_cbmc(g2, binary, env, _split=True)
     with cf.ThreadPoolExecutor(8) as ex:
         for names, r in zip(jobs, ex.map(one, jobs)):
@@ -619,6 +622,24 @@ def run_group(pid, g, tier, seed, keep=False):
              discharged=0, failed=[], unknown=[], canaries=0, canaries_ok=0, infra=None,
              violations=[], note=g["note"], neg_control=g["neg_control"], samples=[])
     try:
+        if g["backend"] == "native":
+            ns = native_search(g, wd, env, g["search"], seed)
+            R["backend_used"] = "native-search"
+            R["native_search"] = dict(cmd=ns["cmd"], found=ns["found"], wall=round(ns["wall"], 1))
+            m = re.search(r"OK runs=(\d+) completed=(\d+)", ns["out"])
+            R["native_runs"] = int(m.group(1)) if m else 0
+            R["native_completed"] = int(m.group(2)) if m else 0
+            R["checker_cmd"] = ns["cmd"]
+            if ns["found"]:
+                m = re.search(r'FAIL obligation="([^"]*)"', ns["out"])
+                R["violations"].append(dict(
+                    group=g["name"], obligation=g["name"] + ".native",
+                    description=(m.group(1) if m else "native search failure"), location="",
+                    backend="native-search", inputs=ns["inputs"], native=ns, reproduced=True,
+                    verifier_output="native differential search (stand-in, no solver answer is available for this obligation)"))
+            elif R["native_completed"] == 0:
+                R["infra"] = "native search completed no sample (assumptions never satisfied): " + ns["out"][-300:]
+            return R
         binary = build_goto(g, wd, env, pid)
         if g["spec_unwind"]:
             rc, lout, err, _, _ = slot_sh(["goto-instrument", "--show-loops", binary], timeout=120, env=env)
